@@ -42,8 +42,8 @@ func (v Val) Src(name string, env map[string]any, lit bool) string {
 func mustDate(s string) system.Date         { return system.MustParseDate(s) }
 func mustDateTime(s string) system.DateTime { return system.MustParseDateTime(s) }
 func mustTime(s string) system.Time         { return system.MustParseTime(s) }
-func mustDec(s string) system.Decimal       { return system.MustParseDecimal(s) }
-func mustQty(n, u string) system.Quantity   { return system.MustParseQuantity(n, u) }
+func mustDec(s string) system.Decimal       { return Dec(s) }
+func mustQty(n, u string) system.Quantity   { return Qty(n, u) }
 
 func intVal(i int64) Val {
 	cls := "int"
@@ -217,6 +217,8 @@ func SystemPool() []Val {
 	sysPool = p
 	return p
 }
+
+func RatOf(s string) *big.Rat { return ratOf(s) }
 
 func ratOf(s string) *big.Rat {
 	r, ok := new(big.Rat).SetString(s)
